@@ -24,6 +24,7 @@ func init() {
 				"at most one host write between two steps before the save point; receivers that hold the snapshot's variables under another type with the same display form; HS: snapshots built by the host (every node x variables nil / empty / {x} / five entries one of which holds no value - if that one is refused, nothing may have changed - x visit counts nil / empty / {A:2}) restored into a runner in every state and continued along every path; " +
 				"every snapshot is taken twice and the second value overwritten by the host at once; every restore is given a copy of the snapshot which the host overwrites as soon as RestoreAt has returned (a snapshot is a self-contained value in both directions); " +
 				"oracle on every transition: elements and storer contents equal those of the reference interpreter restarted from its node-entry checkpoint; every snapshot value held is deep-equal to the frozen copy taken when it was made and to the model checkpoint (nil = empty map); a snapshot taken right after the restore equals the restored one; the unknown-node restore fails and leaves the reflective dump of runner and storer unchanged; " +
+				"SRK: the same on scripts with loops where the host keeps its save value and passes that very value to every RestoreAt, a second time after the dialogue has left the node and come back to it; the save value is what it was; " +
 				"a case is one (script, original path, save point, receiver state, continuation); non-trivial = the save point is after at least one jump or the receiver is not fresh",
 			StatesMean:  "(script, history of operations) prefixes visited on the real runners; transitions = real Next / Snapshot / RestoreAt calls compared with the model",
 			Assumptions: []string{"small-scope hypothesis on scripts and path lengths", "scripts of this family contain no random function; one of them (P7) contains failing statements (unknown jump targets, a type-changing assignment, an unknown function): the dialogue is taken to go on with the statement after the one that failed, as the pinned tree does"},
@@ -195,6 +196,7 @@ func (x *c07Runner) storeDiff(want map[string]yc.Value) string {
 }
 
 type c07Snap struct {
+	kept   *ysgo.Snapshot // keep mode: the host's own copy of the save, handed to every RestoreAt
 	real   *ysgo.Snapshot
 	cp     yc.Checkpoint
 	frozen string
@@ -348,11 +350,24 @@ func (x *c07Runner) restore(s *c07Snap) string {
 	// the runner is given a copy of the snapshot value, which the host overwrites as soon as RestoreAt has returned:
 	// the restored runner must not notice (it would in every later comparison)
 	given := cloneSnapshot(s.real)
+	if c07Keep {
+		if s.kept == nil {
+			s.kept = given
+		}
+		given = s.kept
+	}
 	if p := guard(func() { err = x.r.DR.RestoreAt(given) }); p != nil {
 		return fmt.Sprintf("%s.RestoreAt panicked: %v", x.name, p)
 	}
-	scribble(given)
-	x.trace = append(x.trace, x.name+".RestoreAt(copy of the snapshot of "+s.from+"), then the host overwrites that copy")
+	if c07Keep {
+		x.trace = append(x.trace, x.name+".RestoreAt(the host's save of the snapshot of "+s.from+", the same value every time)")
+		if now := dump.String(given); now != s.frozen {
+			return fmt.Sprintf("the save value the host keeps and restores from was changed (by RestoreAt or by the runners restored from it): it was %s, it is now %s", s.frozen, now)
+		}
+	} else {
+		scribble(given)
+		x.trace = append(x.trace, x.name+".RestoreAt(copy of the snapshot of "+s.from+"), then the host overwrites that copy")
+	}
 	if err != nil {
 		return fmt.Sprintf("%s.RestoreAt of a snapshot of the same script failed: %v", x.name, err)
 	}
@@ -426,10 +441,20 @@ func (x *c07Runner) bogusRestore() string {
 	return ""
 }
 
-type c07Bounds struct{ pre, mid, recv, cont int }
+type c07Bounds struct {
+	pre, mid, recv, cont int
+	// keep: the host keeps the snapshot value it was given and passes that very value to every RestoreAt, never touching it
+	// (instead of a copy that it overwrites right after the call)
+	keep bool
+}
+
+// c07Keep is the keep mode of the restoreExplore part that is running (parts run one after the other).
+var c07Keep bool
 
 // restoreExplore is the exploration shared by C07 and the restore family of C11.
 func restoreExplore(ctx *report.Ctx, partName string, scripts []*yc.Program, hs *yc.HostSpec, b c07Bounds) {
+	c07Keep = b.keep
+	defer func() { c07Keep = false }()
 	part(ctx, partName, 1, func(c *explore.Chooser) {
 		si := c.Choose(len(scripts), "script")
 		p := scripts[si]
@@ -754,7 +779,15 @@ func runC07(ctx *report.Ctx) {
 	if ctx.Quick() {
 		b0 = c07Bounds{pre: 2, mid: 1, recv: 3, cont: 2}
 	}
-	restoreExplore(ctx, "SR0", c07Scripts(false), noVars, b0)
+	sr0 := c07Scripts(false)
+	if ctx.Quick() {
+		sr0 = append(append([]*yc.Program{}, sr0[:5]...), sr0[7]) // without P7 / P8, which the SR part runs
+	}
+	restoreExplore(ctx, "SR0", sr0, noVars, b0)
 	hostSnapshots(ctx, c07Scripts(false), noVars, report.Pick(ctx, 2, 4), report.Pick(ctx, 5, 7))
 	restoreExplore(ctx, "SR", c07Scripts(true), c07Host, b)
+	// SRK: the host keeps its save value and restores from that very value every time, also a second time after the
+	// dialogue has left the node and come back to it (scripts with loops)
+	all := c07Scripts(true)
+	restoreExplore(ctx, "SRK", report.Pick(ctx, []*yc.Program{all[2]}, []*yc.Program{all[2], all[0]}), c07Host, report.Pick(ctx, c07Bounds{pre: 3, mid: 0, recv: 1, cont: 4, keep: true}, c07Bounds{pre: 5, mid: 1, recv: 3, cont: 6, keep: true}))
 }
